@@ -136,7 +136,8 @@ pub fn run_decode(api: Api, enc: &Encoded, payload: &[u8], s: &Sched, st: &mut S
             idle += 1;
             // a stall is: everything has arrived, the output has room, and still nothing moves - twice in a row (reads into a
             // zero-length buffer may legitimately do nothing: whether framing is consumed without room for data is not stated)
-            if arrived == stream.len() && osz > 0 {
+            // (once all the data has been delivered only framing is left, and framing needs no room: then every read counts)
+            if arrived == stream.len() && (osz > 0 || produced == payload.len()) {
                 idle_with_room += 1;
                 if idle_with_room >= 2 {
                     return Err(ctx(format!("stalled at coding offset {} with the whole stream available and room in the output", consumed)));
